@@ -740,6 +740,11 @@ class Prims:
             return base[idx]
         if isinstance(base, GhostMap):
             return base.get(ex, st, idx, node)
+        if isinstance(base, range) and isinstance(idx, int) and not isinstance(idx, bool):
+            if not (-len(base) <= idx < len(base)):
+                ex.oblige(st, z3.BoolVal(False), ex._name("index", node), f"line {node.lineno}: index in range: {ex.src(node)}")
+                raise Unsupported("index out of a concrete range")
+            return base[idx]
         raise Unsupported(f"subscript of {type(base).__name__} at line {node.lineno}")
 
     def getslice(self, ex, st, base, lo, hi, node):
